@@ -190,7 +190,12 @@ def colors():
 @_cache
 def ids(lo: int = 1, hi: int = 40):
     """Explicit id or -1 (= allocate)."""
-    return st.one_of(st.just(-1), st.integers(lo, hi), st.integers(lo, 100000))
+    # the small common range 1..6 makes equal numbers across id kinds (ent/solid/side/group/vis/node) frequent
+    return st.one_of(st.just(-1), st.integers(1, 6), st.integers(lo, hi), st.integers(lo, 100000))
+
+
+_GROUP_REFS = st.one_of(st.integers(1, 6), st.integers(1, 12))
+_VIS_REFS = st.one_of(st.integers(1, 6), st.integers(1, 40))
 
 
 @_cache
@@ -489,8 +494,8 @@ def solid_descs(cfg: GenConfig = DEFAULT):
     """A make_prism box or a Solid of arbitrary Sides, plus the editor attributes."""
     common = {
         'hidden': st.sampled_from([False, False, True]),
-        'group_id': st.one_of(st.none(), st.integers(1, 12)) if cfg.membership else st.none(),
-        'vis_ids': st.lists(st.integers(1, 40), max_size=3) if cfg.membership else st.just([]),
+        'group_id': st.one_of(st.none(), _GROUP_REFS) if cfg.membership else st.none(),
+        'vis_ids': st.lists(_VIS_REFS, max_size=3) if cfg.membership else st.just([]),
         'vis_shown': BOOL, 'vis_auto_shown': BOOL,
         'is_cordon': st.sampled_from([False, False, False, True]),
         'color': colors(),
@@ -541,8 +546,8 @@ def entity_descs(cfg: GenConfig = DEFAULT, world: bool = False, brush: Optional[
         'outputs': st.lists(output_descs(cfg), max_size=cfg.max_outputs) if extras else st.just([]),
         'solids': solids,
         'hidden': st.just(False) if world else st.sampled_from([False, False, True]),
-        'groups': st.lists(st.integers(1, 12), max_size=2) if member else st.just([]),
-        'vis_ids': st.lists(st.integers(1, 40), max_size=3) if member else st.just([]),
+        'groups': st.lists(_GROUP_REFS, max_size=2) if member else st.just([]),
+        'vis_ids': st.lists(_VIS_REFS, max_size=3) if member else st.just([]),
         'vis_shown': st.just(True) if world else BOOL,
         'vis_auto_shown': st.just(True) if world else BOOL,
         'logical_pos': logical,
@@ -619,19 +624,54 @@ DEFAULT_SETTINGS = {
 
 def _finish_map(cfg: GenConfig):
     def fn(desc: dict) -> dict:
-        if not (desc['preserve_ids'] and cfg.dup_ids):
+        build_p, parse_p = desc['preserve_ids'], desc['parse_preserve_ids']
+        if not (build_p and parse_p and cfg.dup_ids):
             dedupe_ids(desc)
+        if build_p and not parse_p:
+            explicit_ids(desc)
+        link_membership(desc)
         return desc
     return fn
+
+
+def link_membership(desc: dict) -> None:
+    """Point about half of the group / visgroup membership references (the odd ones) at groups / visgroups that exist in
+    the map with an explicit id; the rest stay as drawn (possibly dangling).  In place."""
+    vis_ids: list = []
+
+    def vis(v: dict) -> None:
+        if v['id'] != -1:
+            vis_ids.append(v['id'])
+        for c in v['children']:
+            vis(c)
+
+    for v in desc['visgroups']:
+        vis(v)
+    group_ids = [g['id'] for g in desc['groups'] if g['id'] != -1]
+
+    def link(ref: int, pool: list) -> int:
+        return pool[(ref // 2) % len(pool)] if pool and ref % 2 else ref
+
+    for ent in [desc['world']] + desc['entities']:
+        ent['groups'] = [link(r, group_ids) for r in ent['groups']]
+        ent['vis_ids'] = [link(r, vis_ids) for r in ent['vis_ids']]
+        for sol in ent['solids']:
+            if sol.get('group_id') is not None:
+                sol['group_id'] = link(sol['group_id'], group_ids)
+            sol['vis_ids'] = [link(r, vis_ids) for r in sol.get('vis_ids', [])]
 
 
 @_cache
 def map_descs(cfg: GenConfig = DEFAULT, preserve_ids: Optional[bool] = None,
               min_ents: int = 0, brush_ents: Optional[bool] = None):
-    """Whole-map descriptor.  ``preserve_ids`` None = drawn; duplicate explicit ids are only left in with preserve_ids."""
+    """Whole-map descriptor.  ``preserve_ids`` (how the VMF is built) and ``parse_preserve_ids`` (how a round trip should
+    re-parse it) are drawn independently when the argument is None.  Duplicate explicit ids within a kind are only left in
+    when both are true; a map built with preserve_ids=True for parsing with False gets explicit, per-kind unique ids that
+    may clash ACROSS kinds (the situation of real Hammer files: visgroups 1, 2 and groups 1, 2)."""
     meta = cfg.meta
     return st.fixed_dictionaries({
-        'preserve_ids': BOOL if preserve_ids is None else st.just(preserve_ids),
+        'preserve_ids': st.sampled_from([False, True, True]) if preserve_ids is None else st.just(preserve_ids),
+        'parse_preserve_ids': BOOL if preserve_ids is None else st.just(preserve_ids),
         'settings': settings_descs(cfg) if meta and cfg.settings else st.builds(lambda: dict(DEFAULT_SETTINGS)),
         'visgroups': st.lists(visgroup_descs(cfg), max_size=cfg.max_visgroups) if meta else st.builds(list),
         'groups': st.lists(group_descs(), max_size=cfg.max_groups) if meta else st.builds(list),
@@ -674,6 +714,78 @@ def dedupe_ids(desc: dict) -> None:
                 for side in sol['sides']:
                     take('side', side)
     # make_prism allocates ids itself: explicit ids could collide with them under IDMan only harmlessly (IDMan re-allocates).
+
+
+def explicit_ids(desc: dict) -> None:
+    """For a map built with VMF(preserve_ids=True) (ids pass through unchecked) that will be parsed with preserve_ids=False:
+    make every id unique within its kind *by construction* - visgroups, groups and entities all get explicit small ids
+    (no auto-allocation that a later explicit id could repeat), explicit solid/side ids move above 1000 (make_prism
+    allocates from 1), duplicate "nodeid" keyvalues are dropped.  Call after dedupe_ids().  In place."""
+    def fill(holders: list, start: int) -> None:
+        used = {h['id'] for h in holders if h['id'] != -1}
+        nxt = start
+        for h in holders:
+            if h['id'] == -1:
+                while nxt in used:
+                    nxt += 1
+                h['id'] = nxt
+                used.add(nxt)
+
+    vis_all: list = []
+
+    def vis(v: dict) -> None:
+        vis_all.append(v)
+        for c in v['children']:
+            vis(c)
+
+    for v in desc['visgroups']:
+        vis(v)
+    fill(vis_all, 1)
+    fill(desc['groups'], 1)
+    fill(desc['entities'], 2)           # worldspawn takes 1
+    nodes: set = set()
+    for ent in [desc['world']] + desc['entities']:
+        keys = []
+        for k, v in ent['keys']:
+            if k.casefold() == 'nodeid':
+                if v.strip() in nodes:
+                    continue
+                nodes.add(v.strip())
+            keys.append([k, v])
+        ent['keys'] = keys
+        for sol in ent['solids']:
+            if sol['kind'] == 'sides':
+                if sol['id'] != -1:
+                    sol['id'] += 1000
+                for side in sol['sides']:
+                    if side['id'] != -1:
+                        side['id'] += 1000
+
+
+def content_ids(content: dict) -> dict:
+    """All *defining* ids of a walker structure per kind: {'ent': [...], 'solid': [...], 'side': [...], 'group': [...],
+    'vis': [...], 'node': [...]} (lists, so duplicates are visible)."""
+    res: dict = {'ent': [], 'solid': [], 'side': [], 'group': [], 'vis': [], 'node': []}
+
+    def vis(v: dict) -> None:
+        res['vis'].append(v['id']['v'])
+        for c in v['children']:
+            vis(c)
+
+    for v in content['visgroups'] or []:
+        vis(v)
+    for g in content['groups']:
+        res['group'].append(g['id']['v'])
+    for ent in [content['world']] + content['entities']:
+        res['ent'].append(ent['id']['v'])
+        for k, v in ent['keys']:
+            if k.casefold() == 'nodeid' and isinstance(v, dict):
+                res['node'].append(v['v'])
+        for sol in ent['solids']:
+            res['solid'].append(sol['id']['v'])
+            for side in sol['sides']:
+                res['side'].append(side['id']['v'])
+    return res
 
 
 # ---------------------------------------------------------------------------------------------------------------------
@@ -843,6 +955,7 @@ def X(x): return {'~': 'x', 'v': float(x)}
 def A(x): return {'~': 'a', 'v': float(x)}
 def ID(kind, n): return {'~': 'id', 'k': kind, 'v': n}
 def IDS(kind, ns): return {'~': 'ids', 'k': kind, 'v': sorted(ns)}
+ANY = {'~': 'any'}
 
 
 def _v3(v): return [C(v.x), C(v.y), C(v.z)]
@@ -908,6 +1021,12 @@ def output_content(out) -> dict:
 def entity_content(ent) -> dict:
     # Mapping protocol: iteration yields the stored key casing.  A sorted pair list, not a dict: keys are arbitrary strings.
     keys = sorted([k, ent[k]] for k in ent)
+    for pair in keys:        # "nodeid" is an id managed by VMF.node_id: compared like the other ids
+        if pair[0].casefold() == 'nodeid':
+            try:
+                pair[1] = ID('node', int(pair[1]))
+            except ValueError:
+                pass
     fix = []
     if len(ent.fixup):
         fix = sorted(([f.var, f.value, f.id] for f in ent.fixup.copy_values()), key=lambda t: (t[2], t[0]))
@@ -1020,6 +1139,7 @@ class IdMaps:
         self.mode = mode          # 'exact' | 'renumber'
         self.a: dict = {}
         self.b: dict = {}
+        self.last = (None, None)
 
     def same(self, kind: str, x: int, y: int) -> bool:
         if self.mode == 'exact':
@@ -1028,6 +1148,7 @@ class IdMaps:
         mb = self.b.setdefault(kind, {})
         ia = ma.setdefault(x, len(ma))
         ib = mb.setdefault(y, len(mb))
+        self.last = (ia, ib)
         return ia == ib
 
     def same_set(self, kind: str, xs: list, ys: list) -> bool:
@@ -1057,12 +1178,18 @@ def diff_content(a: Any, b: Any, ids: str = 'exact', limit: int = 8) -> list:
     def rec(x, y, path):
         if len(out) >= limit:
             return
+        if isinstance(x, dict) and x.get('~') == 'any':
+            return                                      # wildcard: the expected structure does not constrain this value
         if isinstance(x, dict) and '~' in x:
             if not (isinstance(y, dict) and y.get('~') == x['~']):
                 out.append((path, x, y))
             elif x['~'] == 'id':
                 if not maps.same(x['k'], x['v'], y['v']):
-                    out.append((path, x['v'], y['v']))
+                    if ids == 'renumber':
+                        ia, ib = maps.last
+                        out.append((path, f"{x['k']} id {x['v']} = #{ia} by first occurrence", f"{y['v']} = #{ib}"))
+                    else:
+                        out.append((path, x['v'], y['v']))
             elif x['~'] == 'ids':
                 if not maps.same_set(x['k'], x['v'], y['v']):
                     out.append((path, x['v'], y['v']))
